@@ -14,6 +14,8 @@ Legs
            await points of every future, status.tag; the property predicates on the code's behaviour
   http     the real listener: finished := tick >= query tick || latched, header parsing
   strace   syscall order of write_provision_state; SIGKILL before each syscall: old or new content
+  burst    an operation is sent while the provision actor's mailbox is full of status queries: every
+           report / reset whose future completed must be reflected in the flags
   threads  F11: two real writers + a reader (reported as a known finding when it shows)
 """
 import itertools
@@ -492,6 +494,34 @@ def gen_http(ctx):
     return scs
 
 
+def gen_burst(ctx):
+    """an operation arrives while the provision actor's 100-slot mailbox is full of status queries"""
+    rng = ctx.rng
+    scs = []
+    perms = list(itertools.permutations("RKL"))
+    n = 18 if ctx.quick else 80
+    for i in range(n):
+        order = perms[i % 6]
+        ops = [dict(rep(f), burst=0) for f in order]
+        extra = rng.choice([[], [dict(RESET)], [dict(RESET), rep("K")], [dict(RESET), dict(RESET)], [dict(TIMEUP)]])
+        ops += [dict(o, burst=0) for o in extra]
+        if i < 6:
+            hot = [i % 3]                       # each position of each order once
+        else:
+            hot = [j for j in range(len(ops)) if rng.random() < 0.5] or [rng.randrange(len(ops))]
+        for j in hot:
+            ops[j]["burst"] = rng.choice([120, 150, 150, 200, 330])
+        if rng.random() < 0.3:                  # a deadline before everything is ready
+            ops.insert(rng.randrange(len(order)), dict(TIMEUP, burst=rng.choice([0, 150])))
+        scs.append({"kind": "burst", "setup": {"evt": True, "chan": rng.choice(["Unknown", "disabled"])}, "ops": ops})
+    return scs
+
+
+def burst_to_model(sc):
+    tasks = [{k: v for k, v in o.items() if k != "burst"} for o in sc["ops"]] + [qry("const:1")]
+    return {"kind": "sched", "setup": sc["setup"], "tasks": tasks, "sched": [t for t in range(len(tasks)) for _ in range(MAXP)]}
+
+
 def http_to_model(sc):
     """the same run for the model: the listener's own listener_started first, then one task per op,
     each run to completion; a missing / unparsable header is the integer 0 (proxy_server.rs 612-631)"""
@@ -701,6 +731,50 @@ def run(ctx):
             #  only restricts finished=true; such a change shows up as a model/code difference above)
     ctx.log("http leg: %d scenarios, %d /provision requests" % (len(https), n_http_q))
 
+    # ---------------- burst leg: reports / resets against a full actor mailbox ----------------
+    bursts = gen_burst(ctx)
+    bout = chunked_driver(binary, bursts, os.path.join(cdir, "burst"), chunk=max(4, len(bursts) // 6 + 1))
+    bmodel = [None] * len(bursts)
+    if with_model:
+        bmodel = vplib.coq_eval(ctx, REQUIRES, [coq_observe(var, burst_to_model(sc)) for sc in bursts], prelude=PRELUDE,
+                                shard=max(6, len(bursts) // 8 + 1), timeout=1500, name="burst")
+    n_burst_ops = 0
+    for sc, out, mo in zip(bursts, bout, bmodel):
+        if "steps" not in out:
+            disagreements.append({"case": sc, "impl": out, "model": "n/a"})
+            continue
+        cmb = canon_model(burst_to_model(sc), mo, var)[0] if with_model else None
+        fl = out["init"]["flags"]
+        for i, (o, s) in enumerate(zip(sc["ops"], out["steps"])):
+            n_burst_ops += 1
+            if not s["op_done"] or s["burst_left"]:
+                failures.append({"case": sc, "kind": "burst", "impl": s,
+                                 "why": "op %d (%s) or %d of its %d surrounding queries never completed although the actor was left to drain" % (i, o["op"], s["burst_left"], s["burst"])})
+                break
+            # no lost update: every report / reset whose future completed is reflected in the flags
+            if o["op"] == "report":
+                fl |= FLAG[o["flag"]]
+            elif o["op"] == "reset":
+                fl &= ~FLAG["K"]
+            if s["flags"] != fl:
+                failures.append({"case": sc, "kind": "lost-update", "impl": out["steps"],
+                                 "why": "lost update: after op %d (%s%s, sent while %d status queries were queued at the provision actor) completed the flags are %d, the completed reports/resets give %d" % (
+                                     i, o["op"], " " + o.get("flag", "") if o["op"] == "report" else "", s["burst"], s["flags"], fl)})
+                break
+            if cmb:
+                mfl, mrank = cmb["steps"][(i + 1) * MAXP - 1]
+                if (mfl, mrank != 0) != (s["flags"], int(s["tick"]) != 0):
+                    disagreements.append({"case": sc, "op_index": i, "model": (mfl, mrank != 0), "impl": (s["flags"], int(s["tick"]) != 0)})
+                    break
+        else:
+            fin = out["final"]
+            if named(fin["err"]) != missing(fl) or ((fin["err"] == "") != (fl == ALL)):
+                failures.append({"case": sc, "kind": "error-text", "impl": fin,
+                                 "why": "after the burst scenario the error text %r names %s, the completed reports/resets leave %s missing" % (fin["err"], sorted(named(fin["err"])), sorted(missing(fl)))})
+            if cmb and cmb["results"][-1]["err"] != fin["err"]:
+                disagreements.append({"case": sc, "differs_in": ["final error text"], "model": cmb["results"][-1]["err"], "impl": fin["err"]})
+    ctx.log("burst leg: %d scenarios, %d operations" % (len(bursts), n_burst_ops))
+
     # ---------------- strace leg: syscall order and kill points of write_provision_state ----------------
     strace_info = strace_leg(ctx, binary, cdir, strs, limit, var, disagreements, failures, with_model)
 
@@ -730,7 +804,7 @@ def run(ctx):
     ctx.coverage["f11_threads"] = f11
 
     # ---------------- coverage / verdict ----------------
-    total = len(cases) + len(https)
+    total = len(cases) + len(https) + len(bursts)
     ctx.coverage.update({
         "evaluations": total + strace_info.get("runs", 0),
         "distinct_nontrivial": len(nontrivial),
@@ -739,10 +813,10 @@ def run(ctx):
                 "{R,K reports, reset, query} (B), {R-report, reset, deadline, query} (C), {key_latched, reset, key_latched, query} (D), two queries (E, thorough), "
                 "each followed by running everything to completion, plus random scenarios (3-4 reports, 0-2 resets, deadline, 1-2 queries with ticks now/0/-7/future/tick/tick+-1, "
                 "channel and status-message changes); non-trivial = the flags took more than two distinct values during the run, distinct by (tasks, schedule); "
-                "sequential op scripts against the real listener; strace runs of write_provision_state",
+                "sequential op scripts against the real listener; burst scripts (each report / reset / deadline sent while 120-330 status queries are queued at the provision actor, mailbox capacity 100); strace runs of write_provision_state",
         "exhaustive": False,
         "samples": samples,
-        "input_distribution": dict(dist, http_scenarios=len(https), http_requests=n_http_q,
+        "input_distribution": dict(dist, burst_scenarios=len(bursts), burst_operations=n_burst_ops, http_scenarios=len(https), http_requests=n_http_q,
                                    schedules_with_stale_stamp=n_stale, queries_answered_finished=n_fin,
                                    queries_with_nonempty_error=n_nonempty, strace=strace_info),
     })
